@@ -115,7 +115,7 @@ def rule_awgn(repo: Repo, rep: Report) -> int:
     for attr, par in (("self.snr_db", "snr_db"), ("self.avg_noise_power", "avg_noise_power")):
         asg = [s for s in stmts_of(init.body) if isinstance(s, ast.Assign) and attr_chain(s.targets[0]) == attr and not (isinstance(s.value, ast.Constant) and s.value.value is None)]
         ok = len(asg) == 1 and isinstance(asg[0].value, ast.Name) and asg[0].value.id == par
-        rep.check(ok, "PARAM", init, f"{attr} = {unparse(asg[0].value) if asg else '?'}", "configured value stored unchanged", f"{attr} is not the constructor argument `{par}`", node=asg[0] if asg else init.node)
+        rep.shape(ok, len(asg) == 1 and (isinstance(asg[0].value, (ast.BinOp, ast.Constant)) or (isinstance(asg[0].value, ast.Name) and asg[0].value.id != par)), "PARAM", init, f"{attr} = {unparse(asg[0].value) if asg else '?'}", "configured value stored unchanged", f"{attr} is not the constructor argument `{par}`", node=asg[0] if asg else init.node)
         n += 1
     return n
 
@@ -158,14 +158,14 @@ def rule_nonlinear(repo: Repo, rep: Report) -> int:
     n = 0
     calls = [c for c in ast.walk(fi.node) if isinstance(c, ast.Call) and call_name(c) == "_apply_noise"]
     ok = len(calls) == 1 and {k.arg: unparse(k.value) for k in calls[0].keywords} == {"snr_db": "self.snr_db", "noise_power": "self.avg_noise_power"} and len(calls[0].args) == 1 and unparse(calls[0].args[0]) == "y"
-    rep.check(ok, "VARIANCE-LAW", fi, f"noise stage: {unparse(calls[0]) if calls else '(none)'}", "noise is added by the shared _apply_noise with the configured parameters, calibrated on the nonlinearity's output", "the nonlinear channel does not add its noise through _apply_noise(y, snr_db=self.snr_db, noise_power=self.avg_noise_power)", node=calls[0] if calls else fi.node)
+    rep.shape(ok, len(calls) == 1 and (len(calls[0].args) == 1 and unparse(calls[0].args[0]) == "x"), "VARIANCE-LAW", fi, f"noise stage: {unparse(calls[0]) if calls else '(none)'}", "noise is added by the shared _apply_noise with the configured parameters, calibrated on the nonlinearity's output", "the nonlinear channel does not add its noise through _apply_noise(y, snr_db=self.snr_db, noise_power=self.avg_noise_power)", node=calls[0] if calls else fi.node)
     n += 1
     from ..astutil import ancestors, set_parents
 
     set_parents(fi.node)
     if calls:
         guard = next((a for a in ancestors(calls[0]) if isinstance(a, ast.If)), None)
-        rep.check(guard is not None and unparse(guard.test) == "self.add_noise", "VARIANCE-LAW", fi, f"noise guarded by: {unparse(guard.test) if guard else '(none)'}", "noise only when requested", "noise is not guarded by self.add_noise", node=calls[0])
+        rep.shape(guard is not None and unparse(guard.test) == "self.add_noise", guard is not None and unparse(guard.test) == "not self.add_noise", "VARIANCE-LAW", fi, f"noise guarded by: {unparse(guard.test) if guard else '(none)'}", "noise only when requested", "noise is not guarded by self.add_noise", node=calls[0])
         n += 1
     return n
 
